@@ -199,3 +199,16 @@ def install(eng):
                              "digits = bounded relation linform vs closed forms); domain cells are exact axis-parallel squares")
     eng.used_assumptions.add("C16 (bounded there): after refine_msh_bdr exactly one leaf has the segment as an edge and both end points are "
                              "retrievable; scenario: that cell plus one further cell per configuration, horizontal and vertical segment")
+
+
+REPLAY_C08 = '''
+from vlib.core import Check
+from bounded import potential_rel
+chk = Check("C08", "quick", 0, "other", "replay")
+potential_rel.run(chk, "C08", "quick", 0)
+observed = [o.name for o in chk.obs if o.status == "failed"][:6]
+violated = len(observed) > 0
+'''
+for _c in contracts:
+    if _c.setup is not None:
+        _c.replay_on_unknown = lambda mv, sc, ob: REPLAY_C08
